@@ -128,8 +128,8 @@ def opt_fact(kind, x):
     """Alternatives for 'x is Some/Ok' ("some") or 'x is None/Err' ("none") on a two-variant enum:
     `if let`/`match`/`?` leave either a positive or a negative variant fact."""
     if kind == "some":
-        return [("variant_in", x, (1,)), ("variant_not_in", x, (0,))]
-    return [("variant_in", x, (0,)), ("variant_not_in", x, (1,))]
+        return [("variant_in", x, (1,)), ("variant_not_in", x, (0,)), ("variant_in", "Try::branch(%s)" % x, (0,)), ("variant_not_in", "Try::branch(%s)" % x, (1,))]
+    return [("variant_in", x, (0,)), ("variant_not_in", x, (1,)), ("variant_in", "Try::branch(%s)" % x, (1,)), ("variant_not_in", "Try::branch(%s)" % x, (0,))]
 
 
 def expect_defs(ctx, rule, body, local, roles, allowed, required, what):
